@@ -396,3 +396,29 @@ def exc_code(exc):
     if isinstance(exc, OSError):
         return 20
     return 30
+
+
+def budget_failure(T, waits, lockwaits, selans, lockans, outcome_code, what):
+    """waits requested never exceed what is left of T; a zero timeout never waits; TimeoutError only if exhausted."""
+    if T is None:
+        if outcome_code == 1:
+            return f"{what}: TimeoutError with an infinite timeout"
+        return None
+    if T < 0:
+        return None
+    reqs = [w[1] for w in waits] + list(lockwaits)
+    if T == 0 and reqs:
+        return f"{what}: a zero timeout waited ({reqs})"
+    spent = 0
+    # replay in order: lock wait first, then selector waits, each bounded by the remaining budget
+    seq = [(r, lockans[1] if lockans not in (None, "none") else 0) for r in lockwaits]
+    seq += [(w[1], (selans[i][1] if i < len(selans) else 0)) for i, w in enumerate(waits)]
+    for req, el in seq:
+        if req == [] or req[0] < 0:
+            return f"{what}: unbounded or malformed wait {req} with finite timeout {T}"
+        if spent >= T:
+            return f"{what}: waits again although {spent} >= T={T} ticks were already spent waiting"
+        if req[0] > T - spent:
+            return f"{what}: requested a wait of {req[0]} ticks with only {T - spent} left of T={T}"
+        spent += el
+    return None
